@@ -625,7 +625,9 @@ func init() {
 			}
 			e.H.invMod = m.Val
 			e.H.invPairs = append(e.H.invPairs, [2]*Term{z, w})
-			e.H.assumes = append(e.H.assumes, e.st.Implies(s.pc, e.st.Eq(e.st.IMod(e.st.IMul(z, w), m), e.st.Inti(1))))
+			def := e.st.Implies(s.pc, e.st.Eq(e.st.IMod(e.st.IMul(z, w), m), e.st.Inti(1)))
+			e.st.invDefs[def] = true
+			e.H.assumes = append(e.H.assumes, def)
 			return nil
 		},
 		"vZbytes": func(e *Engine, fr *Frame, s *State, f *ssa.Function, args []Value, pos string) Value {
